@@ -1,61 +1,30 @@
 (* C16 -- Member names are kept relative on write.
    This file holds only statements, `exact`, and Print Assumptions.  The model is coq/theories/Path.v
    (pathlib.PurePosixPath of CPython 3.12, helpers.canonical_path / is_relative_to / is_path_valid /
-   check_archive_path, SevenZipFile._sanitize_archive_arcname, the stored file name); it is tied to the code
+   check_archive_path (repaired), SevenZipFile._sanitize_archive_arcname, the stored file name); it is tied to the code
    by the exhaustive correspondence of tools/harness/c16.py.  Strings are lists of code points. *)
 From P7 Require Import Prelude Path PathProofs.
 Open Scope Z_scope.
 
 (* ---- (1) the gate of writestr / writef against the independent definition ---- *)
 
-(* what check_archive_path computes on every string: not starting with '/', and after running the kept
-   components of the name ('' and '.' dropped; '..' pops, nothing to pop at '/': stays; others push) over
-   the stack [dafj08sajfa; a90sufoiasj09; hoge; fuga; boo; foo] the six dummy components are at the bottom *)
-Theorem C16_check_archive_path_char : forall name,
-  check_archive_path name =
-  negb (startswith_slash name) && prefixb dummy_comps (rev (fold_left mstep (comps name) R)).
-Proof. exact check_archive_path_char. Qed.
-Print Assumptions C16_check_archive_path_char.
+(* full strength, every string: check_archive_path (as repaired by the commit "fix: check_archive_path
+   accepted names that climb above the archive root": lexical depth walk over Path(arcname).parts) is
+   exactly "not absolute and never above the root when '..' is resolved against a virtual root" *)
+Theorem C16_check_archive_path_spec : forall name, check_archive_path name = spec_ok name.
+Proof. exact check_archive_path_spec. Qed.
+Print Assumptions C16_check_archive_path_spec.
 
-(* the full-strength statement `forall name, check_archive_path name = spec_ok name` is FALSE of the
-   code as it is: "../dafj08sajfa/x" climbs above the root and comes back through the dummy directory *)
-Theorem C16_check_archive_path_spec_refuted : exists name, check_archive_path name <> spec_ok name.
-Proof. exact check_archive_path_spec_refuted. Qed.
-Print Assumptions C16_check_archive_path_spec_refuted.
-
-(* witness1 = "../dafj08sajfa/x", witness2 = "a/../../dafj08sajfa" *)
-Theorem C16_check_archive_path_witnesses :
-  check_archive_path witness1 = true /\ spec_ok witness1 = false /\
-  check_archive_path witness2 = true /\ spec_ok witness2 = false.
-Proof. exact check_archive_path_witnesses. Qed.
-Print Assumptions C16_check_archive_path_witnesses.
-
-(* what does hold: equality for every string none of whose '/'-separated components is spelled
-   "dafj08sajfa" (d6, the last component of the dummy directory) *)
-Theorem C16_check_archive_path_spec_partial : forall name,
-  ~ In d6 (split name) -> check_archive_path name = spec_ok name.
-Proof. exact check_archive_path_spec_partial. Qed.
-Print Assumptions C16_check_archive_path_spec_partial.
-
-Theorem C16_check_archive_path_spec_partial_dummy : forall name,
-  (forall c, In c (split name) -> ~ In c dummy_comps) -> check_archive_path name = spec_ok name.
-Proof. exact check_archive_path_spec_partial_dummy. Qed.
-Print Assumptions C16_check_archive_path_spec_partial_dummy.
-
-(* unconditional directions *)
-Theorem C16_inside_accepted : forall name, spec_ok name = true -> check_archive_path name = true.
-Proof. exact inside_accepted. Qed.
-Print Assumptions C16_inside_accepted.
-
-Theorem C16_absolute_rejected : forall name,
-  is_absolute name = true -> check_archive_path name = false /\ spec_ok name = false.
+Theorem C16_absolute_rejected : forall name, is_absolute name = true -> check_archive_path name = false.
 Proof. exact absolute_rejected. Qed.
 Print Assumptions C16_absolute_rejected.
 
-Theorem C16_accepted_inside_or_dummy : forall name,
-  check_archive_path name = true -> spec_ok name = true \/ In d6 (split name).
-Proof. exact accepted_inside_or_dummy. Qed.
-Print Assumptions C16_accepted_inside_or_dummy.
+(* the names accepted before the fix, through the former dummy directory: "../dafj08sajfa/x",
+   "a/../../dafj08sajfa" *)
+Theorem C16_former_witnesses_rejected :
+  check_archive_path witness1 = false /\ check_archive_path witness2 = false.
+Proof. exact ex_former_witnesses_rejected. Qed.
+Print Assumptions C16_former_witnesses_rejected.
 
 (* ---- (2) _sanitize_archive_arcname (write / writeall with arcname None) ---- *)
 Theorem C16_sanitize_relative : forall arc r, sanitize_archive_arcname arc = Ok r ->
@@ -87,11 +56,15 @@ Theorem C16_stored_name_same_verdict : forall name, spec_ok (make_name name) = s
 Proof. exact stored_name_same_verdict. Qed.
 Print Assumptions C16_stored_name_same_verdict.
 
-(* writestr / writef: an accepted name is stored relative, and stays inside unless it spells d6 *)
-Theorem C16_accepted_stored_relative : forall name, check_archive_path name = true ->
-  is_absolute (make_name name) = false /\ (spec_ok (make_name name) = true \/ In d6 (split name)).
-Proof. exact accepted_stored_relative. Qed.
-Print Assumptions C16_accepted_stored_relative.
+Theorem C16_stored_name_same_check : forall name, check_archive_path (make_name name) = check_archive_path name.
+Proof. exact stored_name_same_check. Qed.
+Print Assumptions C16_stored_name_same_check.
+
+(* writestr / writef: an accepted name is stored as a relative name that stays inside *)
+Theorem C16_accepted_stored_inside : forall name, check_archive_path name = true ->
+  is_absolute (make_name name) = false /\ spec_ok (make_name name) = true.
+Proof. exact accepted_stored_inside. Qed.
+Print Assumptions C16_accepted_stored_inside.
 
 (* write / writeall with arcname None: whatever is stored is not absolute (file given as str / as Path) *)
 Theorem C16_write_stored_relative : forall file n, write_name_str file = Ok n -> is_absolute n = false.
@@ -135,16 +108,10 @@ Theorem C16_listed_name_partial : forall name, ~ In 92 name -> listed_name name 
 Proof. exact listed_name_partial. Qed.
 Print Assumptions C16_listed_name_partial.
 
-(* ---- the repair proposed in the report meets the specification on every string ---- *)
-Theorem C16_lexical_check_meets_spec : forall name, check_archive_path_lexical name = spec_ok name.
-Proof. exact lexical_check_meets_spec. Qed.
-Print Assumptions C16_lexical_check_meets_spec.
-
 (* ---- non-vacuity: hypotheses of the implications above are met by concrete non-trivial names ---- *)
-Example C16_ex_partial_hypothesis :                                   (* "a/../../b": climbs, no d6 *)
-  ~ In d6 (split [97; 47; 46; 46; 47; 46; 46; 47; 98]) /\
+Example C16_ex_climbing_rejected :                                    (* "a/../../b" *)
   check_archive_path [97; 47; 46; 46; 47; 46; 46; 47; 98] = false /\ spec_ok [97; 47; 46; 46; 47; 46; 46; 47; 98] = false.
-Proof. split; [exact ex_partial_hyp | exact ex_partial_both_false]. Qed.
+Proof. exact ex_climbing_rejected. Qed.
 
 Example C16_ex_inside : spec_ok [97; 47; 46; 46; 47; 98; 47; 47; 46; 47; 99] = true
   /\ check_archive_path [97; 47; 46; 46; 47; 98] = true.                  (* "a/../b//./c", "a/../b" *)
